@@ -315,6 +315,7 @@ func (x *hw) httpwireSharedPool(out *strings.Builder) {
 func (x *hw) httpwireRound4(out *strings.Builder) {
 	x.httpwireSharedPool(out)
 	x.httpwireDecodeHeader(out)
+	x.httpwireConfigHeaders(out)
 }
 
 // ---------------------------------------------------------------- util.DecodeHeader, semantically (round 4)
@@ -666,4 +667,161 @@ func (x *hw) httpwireDecodeHeader(out *strings.Builder) {
 	body := "  let key : Str := []\n  let value : Str := []\n  let err : Option HdrErr := none\n" + t.block(fd.Body.List, "  ")
 	out.WriteString("/-- regenerated from `components/providers/http/util/request.go` func `DecodeHeader`, statement by statement; `none` = the Go\ncode would panic (index or slice out of range), `some (.error e)` = it returns ErrHeaderFormat / ErrEmptyKey, `some (.ok (key, value))`\nits results; `cut` / `trim` stand for strings.Cut (one-byte separator) / strings.TrimSpace -/\n")
 	out.WriteString("def decodeHeader (h : Str) : Option (Except HdrErr (Str × Str)) :=\n" + body + "\n\n")
+}
+
+// ---------------------------------------------------------------- util.DecodeHTTPConfigHeaders, semantically (round 4)
+//
+//	DecodeHTTPConfigHeaders(headers []string) (http.Header, error)
+//	-> configHeadersInit : Hdr                         the map the loop starts with (make(http.Header) / http.Header{} = empty)
+//	-> configHeaderStep : Hdr → Str → Option (Except HdrErr Hdr)   one round of the loop over the option's strings (none = panic)
+//
+// Supported: the named (or local) result map initialised empty; ONE `for _, h := range headers` whose body is, in this order,
+// `key, value, err = DecodeHeader(h)`; `if err != nil { break | return … }`; one store of (key, value) into the map:
+// `m.Add(key, value)` -> hadd, `m.Set(key, value)` -> hset; nothing else touches the map; the function returns after the loop.
+
+func (x *hw) httpwireConfigHeaders(out *strings.Builder) {
+	p := x.pkgs["components/providers/http/util"]
+	fd := hwFunc(p, "", "DecodeHTTPConfigHeaders")
+	fail := func(n ast.Node, format string, a ...any) {
+		x.failf(p, n, "DecodeHTTPConfigHeaders: "+format, a...)
+	}
+	if fd == nil || len(fd.Type.Params.List) != 1 || len(fd.Type.Params.List[0].Names) != 1 {
+		x.failf(p, nil, "util.DecodeHTTPConfigHeaders(headers []string) not found")
+		return
+	}
+	param := p.TypesInfo.Defs[fd.Type.Params.List[0].Names[0]]
+	isHeaderMap := func(o types.Object) bool {
+		return o != nil && strings.HasSuffix(o.Type().String(), "net/http.Header")
+	}
+	var m types.Object // the header map
+	initSeen, loopSeen, afterLoop := false, false, 0
+	store := ""
+	for _, s := range fd.Body.List {
+		switch v := s.(type) {
+		case *ast.DeclStmt: // var key, value string
+			continue
+		case *ast.AssignStmt:
+			if len(v.Lhs) == 1 && len(v.Rhs) == 1 && !loopSeen {
+				id, ok := v.Lhs[0].(*ast.Ident)
+				var o types.Object
+				if ok {
+					if o = p.TypesInfo.Defs[id]; o == nil {
+						o = p.TypesInfo.Uses[id]
+					}
+				}
+				rhs := hwSrc(p, v.Rhs[0])
+				if isHeaderMap(o) && (rhs == "make(http.Header)" || rhs == "http.Header{}") {
+					m, initSeen = o, true
+					continue
+				}
+			}
+			fail(s, "statement %s", hwSrc(p, s))
+			return
+		case *ast.RangeStmt:
+			if loopSeen || !initSeen {
+				fail(s, "a second loop, or a loop before the map exists")
+				return
+			}
+			loopSeen = true
+			xid, ok := v.X.(*ast.Ident)
+			val, ok2 := v.Value.(*ast.Ident)
+			if !ok || !ok2 || p.TypesInfo.Uses[xid] != param || (v.Key != nil && hwSrc(p, v.Key) != "_") {
+				fail(s, "range header %s", hwSrc(p, v.X))
+				return
+			}
+			h := p.TypesInfo.Defs[val]
+			if len(v.Body.List) != 3 {
+				fail(s, "%d statements in the loop body", len(v.Body.List))
+				return
+			}
+			// 1. key, value, err = DecodeHeader(h)
+			as, ok := v.Body.List[0].(*ast.AssignStmt)
+			if !ok || len(as.Lhs) != 3 || len(as.Rhs) != 1 {
+				fail(v.Body.List[0], "statement %s", hwSrc(p, v.Body.List[0]))
+				return
+			}
+			call, ok := as.Rhs[0].(*ast.CallExpr)
+			if !ok || hwCallee(p, call) != "DecodeHeader" || len(call.Args) != 1 {
+				fail(as, "statement %s", hwSrc(p, as))
+				return
+			}
+			if aid, ok := call.Args[0].(*ast.Ident); !ok || p.TypesInfo.Uses[aid] != h {
+				fail(as, "DecodeHeader of %s", hwSrc(p, call.Args[0]))
+				return
+			}
+			objOf := func(e ast.Expr) types.Object {
+				id, ok := e.(*ast.Ident)
+				if !ok {
+					return nil
+				}
+				if o := p.TypesInfo.Defs[id]; o != nil {
+					return o
+				}
+				return p.TypesInfo.Uses[id]
+			}
+			k, val2, er := objOf(as.Lhs[0]), objOf(as.Lhs[1]), objOf(as.Lhs[2])
+			if k == nil || val2 == nil || er == nil {
+				fail(as, "results of DecodeHeader must be kept: %s", hwSrc(p, as))
+				return
+			}
+			// 2. if err != nil { break | return }
+			ifs, ok := v.Body.List[1].(*ast.IfStmt)
+			if !ok || ifs.Init != nil || ifs.Else != nil || len(ifs.Body.List) != 1 {
+				fail(v.Body.List[1], "statement %s", hwSrc(p, v.Body.List[1]))
+				return
+			}
+			be, ok := ifs.Cond.(*ast.BinaryExpr)
+			if !ok || be.Op != token.NEQ || objOf(be.X) != er || hwSrc(p, be.Y) != "nil" {
+				fail(ifs, "condition %s", hwSrc(p, ifs.Cond))
+				return
+			}
+			switch b := ifs.Body.List[0].(type) {
+			case *ast.BranchStmt:
+				if b.Tok != token.BREAK {
+					fail(b, "statement %s", hwSrc(p, b))
+					return
+				}
+			case *ast.ReturnStmt:
+			default:
+				fail(b, "statement %s", hwSrc(p, b))
+				return
+			}
+			// 3. the store
+			es, ok := v.Body.List[2].(*ast.ExprStmt)
+			if !ok {
+				fail(v.Body.List[2], "statement %s", hwSrc(p, v.Body.List[2]))
+				return
+			}
+			sc, ok := es.X.(*ast.CallExpr)
+			sel, ok2 := sc.Fun.(*ast.SelectorExpr)
+			if !ok || !ok2 || objOf(sel.X) != m || len(sc.Args) != 2 || objOf(sc.Args[0]) != k || objOf(sc.Args[1]) != val2 {
+				fail(es, "statement %s", hwSrc(p, es))
+				return
+			}
+			switch sel.Sel.Name {
+			case "Add":
+				store = "hadd"
+			case "Set":
+				store = "hset"
+			default:
+				fail(es, "statement %s", hwSrc(p, es))
+				return
+			}
+		case *ast.ReturnStmt:
+			if !loopSeen {
+				fail(s, "return before the loop")
+				return
+			}
+			afterLoop++
+		default:
+			fail(s, "statement %s", hwSrc(p, s))
+			return
+		}
+	}
+	if !loopSeen || store == "" || afterLoop != 1 {
+		fail(fd, "loop / final return not found")
+		return
+	}
+	out.WriteString("/-- regenerated from `components/providers/http/util/request.go` func `DecodeHTTPConfigHeaders`: the map the loop over the\n`headers` option starts with -/\ndef configHeadersInit : Hdr := []\n\n")
+	out.WriteString("/-- one round of that loop: DecodeHeader of the string, the first bad string ends the loop with its error, a good one is\nstored into the map; `none` = DecodeHeader would panic -/\ndef configHeaderStep (st : Hdr) (h : Str) : Option (Except HdrErr Hdr) :=\n  (decodeHeader h).map fun r => match r with\n    | .error e => .error e\n    | .ok (key, value) => .ok (" + store + " st key value)\n\n")
 }
